@@ -505,4 +505,23 @@ example :
       = [.block 0 (List.range 22), .block 1 ((List.range 44).drop 22), .status, .status, .status] := by
   decide +kernel
 
+/-- **what the source read today does with a block that got no answer**: the translator found the re-sending loop
+of repair b19459e (`Gen.Hpm.uploadResend`, regenerated on every run).  A tree that goes back to skipping the block
+stops this theorem from building, and the probe of the real code reports `C18:upload:block-skipped-after-timeout`. -/
+theorem upload_source_resends : Gen.Hpm.uploadResend = true := by decide
+
+/-- the upload theorem for the loop AS THE SOURCE HAS IT TODAY (`uploadBinaryV Gen.Hpm.uploadResend`), with the block
+size the source says: on every device plan that lets the upload go on, the bytes are sent exactly once and in order,
+in blocks of at most 22 bytes numbered modulo 256 from zero -/
+theorem upload_exact_today (timeout interval lat : Nat) (retry : Int) (binary : List Nat)
+    (plan : Nat → Reply) (hplan : ∀ i, GoesOn timeout interval lat (plan i)) :
+    (uploadBinaryV Gen.Hpm.uploadResend true Gen.Hpm.blockSize timeout interval lat retry binary (Dev.init plan)).1
+      = .ok () ∧
+    uploadExact 22 plan binary
+      (uploadBinaryV Gen.Hpm.uploadResend true Gen.Hpm.blockSize timeout interval lat retry binary
+        (Dev.init plan)).2.dev.trace = true := by
+  have h := upload_exact_resend Gen.Hpm.blockSize 22 timeout interval lat retry binary plan
+    upload_configured.1 upload_configured.2.1 hplan
+  simpa [uploadBinaryV, upload_source_resends] using h
+
 end PyIpmi.Props.C18
